@@ -141,6 +141,12 @@ thread_local! {
     static REPEATABLE_RNG: RefCell<SmallRng> = RefCell::new(SmallRng::seed_from_u64(0));
 }
 
+/// Verification hook: resets repeatable random generator of the current thread to given seed.
+#[cfg(reinterpretcat_vrp_verif)]
+pub fn verif_reseed(seed: u64) {
+    REPEATABLE_RNG.with(|t| *t.borrow_mut() = SmallRng::seed_from_u64(seed));
+}
+
 /// Provides underlying random generator API.
 #[derive(Clone, Debug)]
 pub struct RandomGen {
